@@ -67,7 +67,7 @@ def find_sig(mod, name):
 
 
 class B2BMon(Mon):
-    def __init__(self, aw=12, inductive=True, capabilities=None):
+    def __init__(self, aw=12, inductive=True, capabilities=None, maxsize=3):
         from litex.soc.interconnect import axi
         from litex.soc.interconnect.axi.axi_full import ax_description
         self.burst = burst = axi.AXIStreamInterface(layout=ax_description(aw), id_width=2)
@@ -81,7 +81,12 @@ class B2BMon(Mon):
         L = burst.len
         size = burst.size
         # --- legality of the request
-        legal = (burst.burst != 3) & (size <= 3)
+        legal = (burst.burst != 3) & (size <= maxsize)
+        if aw > 12:
+            # AMBA: an INCR burst does not cross a 4 KB boundary
+            first_b = Signal(13); span = Signal(16)
+            self.comb += [first_b.eq((burst.addr[:12] >> size) << size), span.eq((burst.len + 1) << size)]
+            legal = legal & ((burst.burst != BURST_INCR) | (first_b + span <= 4096))
         wrap = burst.burst == BURST_WRAP
         legal = legal & (~wrap | (((L == 1) | (L == 3) | (L == 7) | (L == 15)) & ((burst.addr & ((1 << size) - 1)) == 0)))
         self.i = i = Signal(8, name_override="i") if inductive else self.reg(8, "i")
@@ -134,21 +139,21 @@ class B2BMon(Mon):
         self.showl = [burst.valid, burst.ready, burst.addr, burst.len, burst.size, burst.burst, beat.valid, beat.ready, beat.addr, beat.first, beat.last, count, offset]
 
 
-def build_b2b_step():
-    m = B2BMon(inductive=True)
+def build_b2b_step(aw=12, maxsize=3):
+    m = B2BMon(aw=aw, inductive=True, maxsize=maxsize)
     wl = Signal(name_override="w_last_beat_step")
-    m.comb += wl.eq((m.i == m.burst.len) & (m.burst.len >= 200) & m.beat.ready & m.burst.valid & (m.burst.burst == BURST_WRAP - 1))
-    return H("burst2beat_inductive_step", m, m.free, rigid=m.rig, assume=[m.asm], inv=[m.inv],
+    m.comb += wl.eq((m.i == m.burst.len) & (m.burst.len >= (200 if aw == 12 else 24)) & m.beat.ready & m.burst.valid & (m.burst.burst == BURST_WRAP - 1) & ((m.burst.size == maxsize) if aw > 12 else 1))
+    return H("burst2beat_inductive_step" + ("" if aw == 12 else "_aw%d_size%d" % (aw, maxsize)), m, m.free, rigid=m.rig, assume=[m.asm], inv=[m.inv],
              bad=dict(beat_address_is_amba_closed_form=m.bad_addr, first_last_valid_id=m.bad_fl, request_consumed_on_last_beat=m.bad_consume, invariant_preserved=m.bad_inv),
-             witness=dict(long_burst_last_beat=wl), K=1, mode="step", funcs=FUNCS, cfg=dict(address_bits=12, len="0..255 (symbolic)", size="0..3", bursts="FIXED/INCR/WRAP"),
+             witness=dict(long_burst_last_beat=wl), K=1, mode="step", funcs=FUNCS, cfg=dict(address_bits=aw, len="0..255 (symbolic)", size="0..%d" % maxsize, bursts="FIXED/INCR/WRAP", rule_4KB=aw > 12),
              show=m.showl, vcycles=20)
 
 
-def build_b2b_init():
-    m = B2BMon(inductive=True)
+def build_b2b_init(aw=12, maxsize=3):
+    m = B2BMon(aw=aw, inductive=True, maxsize=maxsize)
     w = Signal(name_override="w_reset")
     m.comb += w.eq(1)
-    return H("burst2beat_invariant_initial", m, m.free, rigid=m.rig, assume=[m.asm], bad=dict(invariant_holds_at_reset=m.bad_inv), witness=dict(reset_state=w), K=0,
+    return H("burst2beat_invariant_initial" + ("" if aw == 12 else "_aw%d_size%d" % (aw, maxsize)), m, m.free, rigid=m.rig, assume=[m.asm], bad=dict(invariant_holds_at_reset=m.bad_inv), witness=dict(reset_state=w), K=0,
              funcs=FUNCS, cfg=dict(), show=m.showl, vcycles=10)
 
 
@@ -218,7 +223,9 @@ class ConvReq(Mon):
             # (a window-containment obligation without excuse was tried and dropped: for narrow bursts it fails for the same listed reason)
             exc = Signal(name_override="exc_%s_full_width_incr" % chn)
             wide = max(fullm, fulls)
-            self.comb += exc.eq(~a.valid | (full & (a.burst == BURST_INCR) & (((a.len + 1) << lr) <= 256) & ((a.addr & ((1 << wide) - 1)) == 0)))
+            # (down-conversion handles an unaligned start of a full-width INCR burst: the address is aligned onto the wide bus; only the up-converter needs alignment)
+            aligned = ((a.addr & ((1 << wide) - 1)) == 0) if not down else 1
+            self.comb += exc.eq(~a.valid | (full & (a.burst == BURST_INCR) & (((a.len + 1) << lr) <= 256) & aligned))
             setattr(self, "exc_" + chn, exc)
             wit = wit | (a.valid & full & (a.len == 5) & (a.burst == BURST_INCR))
         self.asm = Signal(name_override="asm_legal")
@@ -270,6 +277,7 @@ def build_conv_data(dwm, dws, depth_s, K, maxlen):
 def jobs(tier):
     T = tier == "thorough"
     js = [Job("burst2beat_inductive_step", build_b2b_step, {}, cost=5), Job("burst2beat_invariant_initial", build_b2b_init, {}, cost=1),
+          Job("burst2beat_inductive_step_aw16_size7", build_b2b_step, dict(aw=16, maxsize=7), cost=10), Job("burst2beat_invariant_initial_aw16_size7", build_b2b_init, dict(aw=16, maxsize=7), cost=1),
           Job("burst2beat_bmc", build_b2b_bmc, dict(K=24 if T else 10), cost=20 if T else 5),
           Job("axi_conv_req_64to32", build_convreq, dict(dwm=64, dws=32), cost=2), Job("axi_conv_req_32to64", build_convreq, dict(dwm=32, dws=64), cost=2),
           Job("axi_conv_req_32to8", build_convreq, dict(dwm=32, dws=8), cost=2),
